@@ -26,8 +26,8 @@ ASSUMPTIONS = [
 ]
 
 
-def sexagesimal(n, sep, frac_digits):
-    sign = "-" if n < 0 else ""
+def sexagesimal(n, sep, frac_digits, plus=False):
+    sign = "-" if n < 0 else ("+" if plus else "")
     a = abs(float(n))
     deg = int(a)
     m = int((a - deg) * 60)
@@ -54,8 +54,10 @@ def submitted_value(kind, val):
             return n, float(refnum.parse(str(n)))
         if mode == "dec":
             s = f"{float(n):.4f}" if val.get("frac", 0) else str(int(n))
+            if val.get("plus") and not s.startswith("-"):
+                s = "+" + s
             return s, float(refnum.parse(s))
-        s = sexagesimal(n, val.get("sep", ":"), val.get("frac", 0))
+        s = sexagesimal(n, val.get("sep", ":"), val.get("frac", 0), val.get("plus", False))
         return s, float(refnum.parse(s))
     if kind == "BLOB":
         from indi.device import values
@@ -202,6 +204,7 @@ val_st = st.fixed_dictionaries(
         "mode": st.sampled_from(["py", "dec", "sexa"]),
         "sep": st.sampled_from([":", ";", " "]),
         "frac": st.sampled_from([-1, 0, 1, 2]),
+        "plus": st.booleans(),
     }
 )
 case_st = st.fixed_dictionaries(
